@@ -29,6 +29,9 @@ var c07Uses = []useSpec{
 	{"nosuch", "", false},
 	{`"NoSuch"`, "", false},
 	{"ks4", "ks4", true},
+	// pairs that differ only in case-sensitivity: two different keyspaces, or one that does not exist
+	{`"KS4"`, "KS4", true},
+	{`"KS1"`, "", false},
 }
 
 // C07 — requests run in the client's current keyspace, protocol version and compression.
@@ -52,7 +55,7 @@ func c07(e *Env) {
 	}
 	w := f.w
 	for _, n := range w.Nodes {
-		n.Keyspaces = map[string]bool{"ks1": true, "ks2": true, "Ks3": true, "ks4": true, "system": true}
+		n.Keyspaces = map[string]bool{"ks1": true, "ks2": true, "Ks3": true, "ks4": true, "KS4": true, "system": true}
 	}
 	refuser := -1
 	if len(w.Nodes) > 1 && c.Choose("refuser?", 4) == 3 {
